@@ -32,6 +32,13 @@ func (c *PointerCodec) Write(w *WriteBuf, p unsafe.Pointer) {
 	// need to worry about writing the union selector.
 	pp := *(*unsafe.Pointer)(p)
 	if pp == nil {
+		// Pointers to slices and maps are not wrapped in a union (their
+		// schema stays a plain array or map), so nil must still produce a
+		// valid encoding: the empty collection.
+		switch c.Codec.(type) {
+		case *arrayCodec, *MapCodec:
+			w.Varint(0)
+		}
 		return
 	}
 	c.Codec.Write(w, pp)
